@@ -14,7 +14,7 @@ CHECKS = {
              'Engine/RepeatingEngine.restart) is executed for all exit-reason sequences up to the bound, all policy options and '
              'hook outcomes; an inductive step from symbolic counters (z3 Ints) extends the budget claims to histories of any '
              'length under the stated invariants. Bounded, not a proof: see evidence bounds.',
-        note='Engine.run/rx launch pipeline, hook import, stability tracker, sleep are stubs listed in the evidence; '
+        note='the rx composition of Engine.run is not executed, but its stage functions (InitPerformanceInfo, LaunchTask, SetLaunchTime, Wait, FinalisePerformanceInfo, HandleTaskExit) are lifted from its AST and every launch / task exit goes through them, with launch failures as a solver choice; hook import, stability tracker, sleep are stubs listed in the evidence; '
              'z3 and the symx executor are trusted; each path is re-run natively and compared.',
         design='DESIGN.md section 2 C12'),
 }
@@ -156,17 +156,17 @@ CHECKS['C13'] = dict(
          'notification arrives, an external kill happens or a due timer fires, and each task\'s duration and outcome. Oracles: no execution before '
          'output, an execution after the last output before stopping, stop within retries+2 attempts but not before a success or exhausted retries, '
          'final exit reason. Path-budgeted (not exhaustive) at 8 (thorough 11) switch points.',
-    note='delivery of the notification by ComponentState.stageIn (rx) is assumed exactly-once; fake clock; performance book-keeping stubbed.',
+    note='delivery of the notification by ComponentState.stageIn (rx) is assumed exactly-once; fake clock; performance book-keeping stubbed; the option handling of RepeatingEngine.__init__ is lifted from its AST.',
     design='DESIGN.md section 2 C13')
 
 CHECKS['C02'] = dict(
     technique='bounded symbolic execution (z3, own executor) with a cooperative scheduler: the order of logical-thread actions and every exit reason are solver variables; reference outcome from the documented rules',
     text='The real Controller.run loop runs against a cooperative scheduler that owns task exits, post-mortem and finished notifications and '
          'asynchronous kills; at the two blocking calls (event wait, stability wait under the lock) the solver picks which enabled action runs '
-         'next and the exit reason of each execution. For 7 (thorough 8) small DAGs every explored ordering must terminate, leave every '
+         'next and the exit reason of each execution. For 9 small DAGs (plus restart-enabled and one focused, exhaustively explored racing variant) every explored ordering must terminate, leave every '
          'component in one final state, and match the rule-given states computed independently from the DAG and the exit reasons. '
          'Path-budgeted per program (not exhaustive for the larger DAGs).',
-    note='real rx operators are applied synchronously on an immediate scheduler; preemption is modelled only at the two blocking calls; '
+    note='the real rx operators of each subscription are applied synchronously, those before the hand-over to controllerPool when the task exits and those after it when the solver lets the pool deliver; preemption is modelled only at the two blocking calls; '
          'Engine.run is a recorder; each notification is delivered exactly once.',
     design='DESIGN.md section 2 C02')
 
